@@ -26,7 +26,7 @@ package keeper
 // C10: when an attempt times out every idle member that is an (active) member of the signing's group is
 // deactivated -- all of them, not only those before the first already-inactive one.
 //@ func (cb TSSCallback) OnSigningTimeout
-//@ may_panic
+//@ may_panic calls
 //@ modifies Store_bandtss, Other
 //@ requires forall a Addr, g Int :: bWfMember(Store_bandtss, a, g)
 //@ ensures  forall j :: 0 <= j && j < len(idleMembers) ==>
@@ -41,7 +41,7 @@ package keeper
 
 // adding a group's members writes member records of THAT group only
 //@ func (k Keeper) AddMembers
-//@ may_panic
+//@ may_panic calls
 //@ modifies Store_bandtss
 //@ ensures forall q Bz :: !(iskey(types.MemberStoreKey, q) && keyarg(types.MemberStoreKey, q, 1) == groupID) ==> Store_bandtss[q] == old(Store_bandtss)[q]
 //@ loop 0: invariant forall q Bz :: !(iskey(types.MemberStoreKey, q) && keyarg(types.MemberStoreKey, q, 1) == groupID) ==> Store_bandtss[q] == old(Store_bandtss)[q]
@@ -52,7 +52,7 @@ package keeper
 // (escrowed) for that signing, and nothing in any other case; the id mapping is removed. The hand-over
 // transition moves from WAITING_SIGN to WAITING_EXECUTION only for its own hand-over signing.
 //@ func (cb TSSCallback) OnSigningCompleted
-//@ may_panic
+//@ may_panic calls
 //@ modifies Store_bandtss, Bank, Other
 //@ ensures old(bMappingOf(Store_bandtss, signingID)) != 0 ==>
 //@    (let bs = old(bSigningAt(Store_bandtss, bMappingOf(Store_bandtss, signingID))) in
@@ -87,7 +87,7 @@ package keeper
 // C18: a forced transition also needs the authority, no transition in progress and a valid execution time, and an
 // ACTIVE incoming group different from the current one; it is recorded as forced, directly WAITING_EXECUTION.
 //@ func (k msgServer) ForceTransitionGroup
-//@ may_panic
+//@ may_panic calls
 //@ modifies Store_bandtss, Other
 //@ ensures err == nil ==> req.Authority == k.Keeper.authority && !old(bTransitionHas(Store_bandtss))
 //@ ensures err == nil ==> !req.ExecTime.Before(sdkctx(goCtx).BlockTime().Add(old(bParams(Store_bandtss)).MinTransitionDuration)) && !req.ExecTime.After(sdkctx(goCtx).BlockTime().Add(old(bParams(Store_bandtss)).MaxTransitionDuration))
@@ -138,7 +138,7 @@ package keeper
 
 //@ spec eligible(o OtherState, m tsstypes.Member) Bool = m.IsActive && types.tssDEQ(o, bech32addr(m.Address)).Tail > types.tssDEQ(o, bech32addr(m.Address)).Head
 //@ func (k Keeper) AllocateTokens
-//@ may_panic
+//@ may_panic calls
 //@ modifies Bank, Other, DistrReceived, DistrAllocated
 // store invariant: the stored parameters passed validation (SetParams below is the only writer of the record)
 //@ requires bParams(Store_bandtss).RewardPercentage <= 100
@@ -173,7 +173,7 @@ package keeper
 // ---- C18: executing / dropping a transition ----------------------------------------------------------------
 // removing a group's members removes member records of THAT group only
 //@ func (k Keeper) DeleteMembers
-//@ may_panic
+//@ may_panic calls
 //@ modifies Store_bandtss
 //@ ensures forall q Bz :: !(iskey(types.MemberStoreKey, q) && keyarg(types.MemberStoreKey, q, 1) == groupID) ==> Store_bandtss[q] == old(Store_bandtss)[q]
 //@ loop 0: invariant forall q Bz :: !(iskey(types.MemberStoreKey, q) && keyarg(types.MemberStoreKey, q, 1) == groupID) ==> Store_bandtss[q] == old(Store_bandtss)[q]
@@ -197,7 +197,7 @@ package keeper
 // that request fails (in which case nothing of the attempt persists). Anything else: no effect.
 //@ spec cgTrigger(s Store, g Int, now Int) Bool = bTransitionHas(s) && bTransitionAt(s).IncomingGroupID == g && bTransitionAt(s).Status == types.TRANSITION_STATUS_CREATING_GROUP && !(bTransitionAt(s).ExecTime < now)
 //@ func (cb TSSCallback) OnGroupCreationCompleted
-//@ may_panic
+//@ may_panic calls
 //@ modifies Store_bandtss, Bank, Other
 //@ ensures !old(cgTrigger(Store_bandtss, groupID, ctx.BlockTime())) ==> Store_bandtss == old(Store_bandtss) && Bank == old(Bank) && Other == old(Other)
 //@ ensures old(cgTrigger(Store_bandtss, groupID, ctx.BlockTime())) && !bTransitionHas(Store_bandtss) ==> old(bTransitionAt(Store_bandtss)).CurrentGroupID != 0 && Store_bandtss == remove(old(Store_bandtss), types.GroupTransitionStoreKey) && Bank == old(Bank) && Other == old(Other)
